@@ -459,7 +459,8 @@ def run_check(hname, tier, seed, nproc=None, only=None, verbose=False):
             continue
         caught = bool(r['violations'])
         weak = bool(r['unreproduced']) or bool(r.get('error'))
-        selftests.append(dict(name=name, result='refuted' if caught else ('symbolic-only' if weak else 'MISSED'),
+        unk = (r.get('unknown_paths') or 0) > 0 or r.get('truncated')
+        selftests.append(dict(name=name, result='refuted' if caught else ('symbolic-only' if weak else ('inconclusive (solver unknown / budget)' if unk else 'MISSED')),
                               witness=(r['violations'][0]['inputs'] if caught else None),
                               label=(r['violations'][0]['label'] if caught else None)))
         print(f"SELFTEST {name}: {selftests[-1]['result']}")
